@@ -38,6 +38,8 @@ func init() {
 	register("C01", "X-TOTAL", ruleXTotal)
 	register("C01", "N-OWN", ruleNOwn)
 	register("C01", "G-ABBREV", ruleGAbbrev)
+	register("C01", "N-FRAME", ruleNFrame)
+	register("C01", "B-NAMETEST", ruleBNameTest)
 
 	register("C13", "N-OWN", ruleNOwn)
 	register("C13", "N-RESTORE", ruleNRestore)
